@@ -1,74 +1,10 @@
-//@unit tier=quick
+//@unit tier=quick canary_includes=yes
 //@include prelude/uses.rs
 verus! {
 //@include prelude/realnumber.rs
 //@include prelude/clone.rs
 //@include prelude/dm_core.rs
 
-impl<T: RealNumber> DenseMatrix<T> {
-//@extract src/linalg/naive/dense_matrix.rs :: impl<T: RealNumber> BaseMatrix<T> for DenseMatrix<T> :: negative_mut
-//@spec
-        requires old(self).wf(),
-        ensures final(self).wf(), final(self).nrows == old(self).nrows, final(self).ncols == old(self).ncols,
-            forall|r: int, c: int| 0 <= r < old(self).nrows && 0 <= c < old(self).ncols ==> final(self).at(r, c) == old(self).at(r, c).neg_spec(), //# negative_mut-cellwise
-//@enter
-        proof { T::ops_total(); }
-//@loop 1
-            invariant self.wf(), old(self).wf(), self.nrows == old(self).nrows, self.ncols == old(self).ncols,
-                VERUS_ghost_iter.iter.end == self.values.len(),
-                forall|k: int| 0 <= k < i ==> self.values[k] == old(self).values[k].neg_spec(),
-                forall|k: int| i <= k < self.values.len() ==> self.values[k] == old(self).values[k],
-//@before self.values[i] = -self.values[i];
-            proof { T::ops_total(); }
-//@exit
-        proof {
-            assert forall|r: int, c: int| 0 <= r < old(self).nrows && 0 <= c < old(self).ncols implies self.at(r, c) == old(self).at(r, c).neg_spec() by {
-                lemma_idx(r, c, self.nrows as int, self.ncols as int);
-            }
-        }
-//@end
-
-//@extract src/linalg/naive/dense_matrix.rs :: impl<T: RealNumber> BaseMatrix<T> for DenseMatrix<T> :: abs_mut :: ret=res
-//@spec
-        requires old(self).wf(),
-        ensures final(self).wf(), final(self).nrows == old(self).nrows, final(self).ncols == old(self).ncols,
-            forall|r: int, c: int| 0 <= r < old(self).nrows && 0 <= c < old(self).ncols ==> final(self).at(r, c) == old(self).at(r, c).abs_spec(), //# abs_mut-cellwise
-            *res == *final(self),
-//@loop 1
-            invariant self.wf(), old(self).wf(), self.nrows == old(self).nrows, self.ncols == old(self).ncols,
-                VERUS_ghost_iter.iter.end == self.values.len(),
-                forall|k: int| 0 <= k < i ==> self.values[k] == old(self).values[k].abs_spec(),
-                forall|k: int| i <= k < self.values.len() ==> self.values[k] == old(self).values[k],
-//@tail
-        proof {
-            assert forall|r: int, c: int| 0 <= r < old(self).nrows && 0 <= c < old(self).ncols implies self.at(r, c) == old(self).at(r, c).abs_spec() by {
-                lemma_idx(r, c, self.nrows as int, self.ncols as int);
-            }
-        }
-//@end
-
-//@extract src/linalg/naive/dense_matrix.rs :: impl<T: RealNumber> BaseMatrix<T> for DenseMatrix<T> :: pow_mut :: ret=res
-//@spec
-        requires old(self).wf(),
-        ensures final(self).wf(), final(self).nrows == old(self).nrows, final(self).ncols == old(self).ncols,
-            forall|r: int, c: int| 0 <= r < old(self).nrows && 0 <= c < old(self).ncols ==> final(self).at(r, c) == old(self).at(r, c).powf_spec(p), //# pow_mut-cellwise
-            *res == *final(self),
-//@loop 1
-            invariant self.wf(), old(self).wf(), self.nrows == old(self).nrows, self.ncols == old(self).ncols,
-                VERUS_ghost_iter.iter.end == self.values.len(),
-                forall|k: int| 0 <= k < i ==> self.values[k] == old(self).values[k].powf_spec(p),
-                forall|k: int| i <= k < self.values.len() ==> self.values[k] == old(self).values[k],
-//@tail
-        proof {
-            assert forall|r: int, c: int| 0 <= r < old(self).nrows && 0 <= c < old(self).ncols implies self.at(r, c) == old(self).at(r, c).powf_spec(p) by {
-                lemma_idx(r, c, self.nrows as int, self.ncols as int);
-            }
-        }
-//@end
-
-    // copy_from: `self.values[..].clone_from_slice(..)` takes `&mut v[..]` (IndexMut<RangeFull>), for which this vstd has no
-    // specification and none can be added from outside (assume_specification must be generic over I and the allocator):
-    // not a Verus unit; covered by the bounded Kani harness C03/copy_from.
-}
+//@include C03/inc/dm_unary_fns.rs
 } // verus!
 fn main() {}
